@@ -356,6 +356,9 @@ func buildPlan(seed int64, thorough bool) *plan {
 		if i%8 == 7 {
 			rc.Mode = "keep-open"
 		}
+		if i%4 == 1 {
+			rc.Mode = "reuse-after-refused"
+		}
 		p.scenarios = append(p.scenarios, Case{Kind: "rport", Class: "rportfwd", Rport: rc})
 	}
 	nStall := 6
